@@ -250,7 +250,18 @@ def build_register_defs(rng, cases):
             dbo = rng.choice([None, "LE", "BE"]) if (c["size"] <= 8 and c["bo"] == "LE") else rng.choice([c["bo"], c["bo"], "LE", "BE"])
             cfg = adef.mk_config(register_address_type="u16", default_byte_order=dbo)
             c["name"] = "Rej"
-            defs.append({"adef": {"config": cfg, "objects": [mk_reg(rng, "Rej", 7, c, dbo)]}, "syntax": syn, "cases": [c], "kind": "reject"})
+            objs = [mk_reg(rng, "Rej", 7, c, dbo)]
+            # a decoy declared BEFORE the rejected register: same declared value, same orders, same byte length, but
+            # every bit of the last byte inside the size — it accepts the value (seed C08-5 memoised the conversion on
+            # exactly these four things and skipped the range check on a hit)
+            wide = 8 * blen(c["size"])
+            if wide > c["size"] and rng.random() < 0.6 and spec_value(c["value"], c["bo"], c["bito"], wide)[0] == "accept":
+                dec = dict(c, size=wide, name="Dec")
+                objs.insert(0, mk_reg(rng, "Dec", 3, dec, dbo))
+                objs[0]["byte_order"], objs[0]["bit_order"] = objs[1]["byte_order"], objs[1]["bit_order"]
+                if objs[0]["byte_order"] is None and dbo is None and wide > 8:
+                    objs[0]["byte_order"] = objs[1]["byte_order"] = c["bo"]
+            defs.append({"adef": {"config": cfg, "objects": objs}, "syntax": syn, "cases": [c], "kind": "reject"})
     for syn, cl in accept.items():
         rng.shuffle(cl)
         for i in range(0, len(cl), BATCH):
